@@ -1,6 +1,7 @@
 #![allow(dead_code)]
 mod chunker_l1;
 mod clone_l1;
+mod compress_rt;
 mod reader_l1;
 mod recreader;
 mod refcodec;
@@ -16,6 +17,7 @@ fn main() {
         "clone-l1" => clone_l1::main(&args[2..]),
         "reader-l1" => reader_l1::main(&args[2..]),
         "chunker-l1" => chunker_l1::main(&args[2..]),
+        "compress-rt" => compress_rt::main(&args[2..]),
         x => {
             eprintln!("unknown subcommand {}", x);
             std::process::exit(2);
